@@ -157,8 +157,8 @@ fn level_change(rep: &mut Report, rng: &mut Rng) {
 }
 
 pub fn run(ctx: &Ctx, rep: &mut Report) {
-    let n = ctx.n(12_000, 2_000_000);
-    let n_lc = ctx.n(1500, 200_000);
+    let n = ctx.n(48_000, 2_000_000);
+    let n_lc = ctx.n(6000, 200_000);
     for k in ctx.cases(n + n_lc) {
         rep.cur_case = k;
         crate::ctx::begin_case(k);
